@@ -3,6 +3,7 @@
 use super::exec::*;
 use super::mon_access::AccessMonitor;
 use super::mon_flow::{FlowMonitor, FrameMonitor};
+use super::mon_kv::{KvMonitor, Kv};
 use super::mon_mem::MemMonitor;
 use super::observer::*;
 use super::world::*;
@@ -12,6 +13,12 @@ use std::collections::BTreeSet;
 pub fn run(prop: &str, world: &World, sc: &Scenario, ctx: &mut RunCtx) {
     let mut storage = world.storage();
     let known: BTreeSet<String> = ctx.known.findings.iter().filter(|e| e.status == "known" && e.property == prop).map(|e| e.signature.clone()).collect();
+    // C33: key-value model of all contract storage, seeded from genesis, persistent across txs
+    let mut kv_model: Kv = Kv::new();
+    for (k, v) in world.genesis.all_contract_state() {
+        kv_model.insert(((*k.contract_id()).into(), (*k.state_key()).into()), v.as_ref().to_vec());
+    }
+    let max_slot = world.params.script_params().max_storage_slot_length();
     for (i, spec) in sc.txs.iter().enumerate() {
         let ready = match prepare(world, sc.height, sc.gas_price, i, spec) {
             Ok(r) => r,
@@ -29,6 +36,8 @@ pub fn run(prop: &str, world: &World, sc: &Scenario, ctx: &mut RunCtx) {
         let mut flow = FlowMonitor::default();
         let mut frames = FrameMonitor::default();
         let mut mem = MemMonitor::default();
+        let mut kv = KvMonitor::new(kv_model.clone(), max_slot);
+        kv.evictions = sc.plan.evictions.iter().filter(|e| e.0 as usize == i).map(|e| (e.1, e.2)).collect();
 
         let (outcome, violation, known_hits) = {
             let mut obs = Observer::new(ctx.stats);
@@ -42,6 +51,10 @@ pub fn run(prop: &str, world: &World, sc: &Scenario, ctx: &mut RunCtx) {
                 "C25" => obs.monitors.push(&mut flow),
                 "C34" => obs.monitors.push(&mut frames),
                 "C24" => obs.monitors.push(&mut mem),
+                "C33" => {
+                    obs.monitors.push(&mut kv);
+                    obs.arm_fault = sc.plan.observer_faults.iter().find(|f| f.0 as usize == i).map(|f| f.1 as u64);
+                }
                 _ => {}
             }
             let o = run_stepped(&mut vm, ready, &mut obs, sc.plan.step_cap as u64);
@@ -89,6 +102,27 @@ pub fn run(prop: &str, world: &World, sc: &Scenario, ctx: &mut RunCtx) {
                     ctx.nontrivial = true;
                 }
             }
+            "C33" => {
+                if kv.legacy_read_of_dynamic || kv.range_clear_mixed_cache {
+                    ctx.nontrivial = true;
+                }
+                if kv.legacy_read_of_dynamic {
+                    ctx.stats.inc("probe.legacy_read_of_dynamic_slot");
+                }
+                if kv.range_clear_mixed_cache {
+                    ctx.stats.inc("probe.range_clear_cached_and_uncached");
+                }
+                if !kv.evictions.is_empty() {
+                    ctx.stats.add("fault.cache_evict", kv.evictions.len() as u64);
+                }
+                if vm.as_ref().errors_fired() > 0 {
+                    ctx.stats.inc("fault.storage_io_error");
+                }
+                // committed on success, restored on revert / panic / error / truncation
+                if !(outcome.is_err || outcome.reverted || outcome.truncated) {
+                    kv_model = kv.kv.clone();
+                }
+            }
             _ => {}
         }
         if outcome.truncated {
@@ -96,6 +130,9 @@ pub fn run(prop: &str, world: &World, sc: &Scenario, ctx: &mut RunCtx) {
             let mut vm2 = new_vm(world, sc.gas_price, snapshot.clone(), Default::default());
             let o2 = run_plain(&mut vm2, prepare(world, sc.height, sc.gas_price, i, spec).unwrap());
             settle(&mut vm2, &snapshot, &o2);
+            if prop == "C33" && !(o2.is_err || o2.reverted) {
+                kv_model = super::mon_kv::table_of(&vm2);
+            }
             storage = take_storage(&mut vm2);
         } else {
             settle(&mut vm, &snapshot, &outcome);
